@@ -350,6 +350,7 @@ func (w *World) arrGet(a *Arr, i int) Value {
 }
 
 func (w *World) arrSet(a *Arr, i int, v Value) {
+	w.touch(a.id, true)
 	if a.isBytes {
 		a.set(i, v.(*Term))
 		return
@@ -372,6 +373,7 @@ func (w *World) builtin(g *G, fr *Frame, name string, args []Value, c *ssa.CallC
 			if x.m == nil {
 				fin(w.intTerm(0))
 			} else {
+				w.touch(x.m.id, false)
 				fin(w.intTerm(len(x.m.keys)))
 			}
 		case ChanV:
@@ -380,7 +382,7 @@ func (w *World) builtin(g *G, fr *Frame, name string, args []Value, c *ssa.CallC
 				return
 			}
 			ch := x.c
-			op := &syncOp{desc: "len(chan)", ready: func() bool { return true }, exec: func() { fin(w.intTerm(len(ch.buf))) }}
+			op := &syncOp{desc: "len(chan)", ready: func() bool { return true }, exec: func() { w.touch(ch.id, false); fin(w.intTerm(len(ch.buf))) }}
 			w.syncPoint(g, op, w.cfg.Gran >= 2)
 		case ArrayV:
 			fin(w.intTerm(len(x.e)))
@@ -472,6 +474,7 @@ func (w *World) builtin(g *G, fr *Frame, name string, args []Value, c *ssa.CallC
 	case "delete":
 		m, _ := args[0].(MapV)
 		if m.m != nil {
+			w.touch(m.m.id, true)
 			if idx := w.mapFind(m.m, args[1]); idx >= 0 {
 				m.m.keys = append(append([]Value{}, m.m.keys[:idx]...), m.m.keys[idx+1:]...)
 				m.m.vals = append(append([]Value{}, m.m.vals[:idx]...), m.m.vals[idx+1:]...)
